@@ -9,7 +9,7 @@
     refuted below with a witness.  DiskKVTest needs no such precondition; its lookups are specified for user
     keys, i.e. keys different from its internal applied-index key. *)
 From Drummer.Model Require Import Base KVCodec KVSM.
-From Drummer.Proofs Require Import KVSMProofs.
+From Drummer.Proofs Require Import KVSMProofs KVSMConcProofs.
 
 (** the full statements *)
 Definition C15_lookup_full : Prop := forall sm,
@@ -86,6 +86,24 @@ Proof.
 Qed.
 Print Assumptions C15_recover_reopen_defined.
 
+(** lookups concurrent with an Update (allowed by the contracts of ConcurrentKVTest and DiskKVTest): a lookup that
+    observes the replica after a prefix of the batch returns the last value written in the update history extended by
+    that prefix; with the views "before the call" and "after the call" / "after the restore" (instances of
+    [C15_lookup]) this is the oracle of the monitor conc-lookup.  For the in-memory machines every prefix of an
+    accepted batch is itself accepted, i.e. these intermediate views exist.  Not covered by any theorem (runtime
+    behaviour, decided by monitors on the real machines): that a concurrent lookup observes no other state and
+    never takes the process down. *)
+Theorem C15_concurrent_lookup_justified : forall sm,
+  conc_update_spec (kvtest_m sm) sm (utf8_script sm) any_key /\
+  conc_update_spec (ckv_m sm) sm (utf8_script sm) any_key /\
+  conc_update_spec (disk_m sm) sm any_script user_key /\
+  update_prefix_defined (kvtest_m sm) /\ update_prefix_defined (ckv_m sm).
+Proof.
+  intros sm. split; [apply json_conc_update|]. split; [apply json_conc_update|]. split; [apply disk_conc_update|].
+  split; apply json_update_prefix_defined.
+Qed.
+Print Assumptions C15_concurrent_lookup_justified.
+
 (** non-vacuity: concrete scripts with updates (empty value, empty key, same key rewritten), snapshot hand-over
     0 -> 1, restart; they run without panic, satisfy the preconditions, and give the expected answers *)
 Definition ea_b : bytes := [0; 1; 97; 1; 1; 98; 127].      (* "a" := "b" *)
@@ -122,6 +140,40 @@ Example C15_ex_disk :
   ran (disk_m 16777216) ex_c 1 idx_key = Some (le64 4) /\ ran (disk_m 16777216) ex_c 0 idx_key = Some (le64 3) /\
   last_index (hist true ex_c 1) = 4 /\ user_key [97].
 Proof. vm_compute. repeat split. intros H; discriminate. Qed.
+
+(* strings far outside the small alphabets: "a" := 5000 x "x" (a record longer than 4096 bytes, two-byte length
+   varint 0x88 0x27) and a 300-byte key, through update, snapshot hand-over and restart on the three machines *)
+Definition long_v : bytes := repeat 120 (N.to_nat 5000).
+Definition long_k : bytes := repeat 107 (N.to_nat 300).
+Definition e_long : bytes := [0; 1; 97; 1; 136; 39] ++ long_v ++ [127].
+Definition e_longk : bytes := [0; 172; 2] ++ long_k ++ [1; 1; 98; 127].
+Definition ex_long : list op :=
+  [OUpdate 0 [(1, ea_b); (2, e_long)]; OUpdate 0 [(5, e_longk)]; OPrepare 0; OUpdate 0 [(6, ea_z)]; OSave 0;
+   ORecover 1 0; OReopen 1; OLookup 1 [97]].
+Definition ex_long_j : list op := filter (fun o => match o with OReopen _ => false | _ => true end) ex_long.
+Definition ex_long_kv : list op := filter (fun o => match o with OPrepare _ => false | _ => true end)
+  [OUpdate 0 [(1, ea_b)]; OUpdate 0 [(2, e_long)]; OUpdate 0 [(5, e_longk)]; OSave 0; OUpdate 0 [(6, ea_z)]; ORecover 1 0].
+Example C15_ex_long_strings :
+  nlen e_long = 5007 /\
+  ran (disk_m 16777216) ex_long 1 [97] = Some long_v /\ ran (disk_m 16777216) ex_long 1 long_k = Some [98] /\
+  ran (disk_m 16777216) ex_long 0 [97] = Some [122] /\
+  ran (ckv_m 16777216) ex_long_j 1 [97] = Some long_v /\ ran (ckv_m 16777216) ex_long_j 1 long_k = Some [98] /\
+  ran (kvtest_m 16777216) ex_long_kv 1 [97] = Some long_v /\ ran (kvtest_m 16777216) ex_long_kv 1 long_k = Some [98] /\
+  utf8_script 16777216 ex_long_j /\ utf8_script 16777216 ex_long_kv.
+Proof. vm_compute. repeat split. Qed.
+
+(* a batch that rewrites a key: the views of a concurrent lookup of "a" are b (before), z (after 1 entry), b (after 2) *)
+Example C15_ex_prefix_views :
+  let M := ckv_m 16777216 in
+  let pre := [OUpdate 0 [(1, ea_b)]] in
+  let batch := [(2, ea_z); (3, ea_b); (4, ec_)] in
+  match run M pre with
+  | Some s => map (fun i => match m_update M (r_st M (s 0)) (firstn i batch) with
+                            | Some st => Some (m_lookup M st [97]) | None => None end) [0; 1; 2; 3]%nat
+              = [Some [98]; Some [122]; Some [98]; Some [98]]
+  | None => False
+  end /\ utf8_script 16777216 (pre ++ [OUpdate 0 (firstn 1 batch)]).
+Proof. vm_compute. repeat split. Qed.
 
 (* the witness of the finding is a valid input of the model: it runs, and it is outside the carve-out *)
 Example C15_ex_witness :
